@@ -52,3 +52,31 @@ fn calculate_inputs<I: Interner>(
         domain_goal.inputs(interner)
     }
 }
+
+/// Verification hook H2 (compiled only with `--cfg chalk_verif`): public wrappers around
+/// `with_priorities` and `calculate_inputs`.
+#[cfg(chalk_verif)]
+pub mod verif {
+    use chalk_ir::interner::Interner;
+    use chalk_ir::{ClausePriority, DomainGoal, GenericArg};
+    use chalk_solve::Solution;
+
+    pub fn with_priorities<I: Interner>(
+        interner: I,
+        domain_goal: &DomainGoal<I>,
+        a: Solution<I>,
+        prio_a: ClausePriority,
+        b: Solution<I>,
+        prio_b: ClausePriority,
+    ) -> (Solution<I>, ClausePriority) {
+        super::with_priorities(interner, domain_goal, a, prio_a, b, prio_b)
+    }
+
+    pub fn calculate_inputs<I: Interner>(
+        interner: I,
+        domain_goal: &DomainGoal<I>,
+        solution: &Solution<I>,
+    ) -> Vec<GenericArg<I>> {
+        super::calculate_inputs(interner, domain_goal, solution)
+    }
+}
